@@ -880,6 +880,12 @@ func predStrict(c Case) (r Result) {
 		r.Discard = "seed-does-not-error"
 		return
 	}
+	for _, cl := range dr.Classes {
+		if cl == "result.error" {
+			// the reference model says the seed's error must surface (and the library agreed)
+			r.Nontrivial = true
+		}
+	}
 	if strict {
 		r.Nontrivial = true
 		o := libSearch(c.Expr, ref.DeepCopy(doc))
@@ -940,6 +946,22 @@ func TestC11Exhaustive(t *testing.T) {
 					run(t, Case{Property: "C11", Kind: "strict", Expr: e2, Doc: `{"k":1}`, Extra: map[string]interface{}{"seed": s.expr, "strict": true}})
 					n++
 				}
+			}
+		}
+		// every binary operator with a left (and right) operand of every type: whether the
+		// seed on the other side must be evaluated is decided by the reference model
+		for _, x := range universeC07 {
+			for _, op := range binOpsC07 {
+				k++
+				if k%nshards != shard {
+					continue
+				}
+				for _, e := range []string{lit(x) + " " + op + " " + s.expr, s.expr + " " + op + " " + lit(x), "[?" + lit(x) + " " + op + " " + s.expr + "]", "f " + op + " " + s.expr} {
+					run(t, Case{Property: "C11", Kind: "strict", Expr: e, Doc: `[{"k":1,"f":` + x + `}]`, Extra: map[string]interface{}{"seed": s.expr, "strict": false}})
+					n++
+				}
+				run(t, Case{Property: "C11", Kind: "strict", Expr: "[0].f " + op + " " + s.expr, Doc: `[{"k":1,"f":` + x + `}]`, Extra: map[string]interface{}{"seed": s.expr, "strict": false}})
+				n++
 			}
 		}
 		for _, c1 := range laxCtx {
